@@ -53,9 +53,14 @@ type fReg struct {
 	norm bool
 }
 
+// maxLimb is the largest limb value a representation of the given magnitude may hold.  The two
+// limb layouts of gocoin follow different generations of libsecp256k1: field_5x52.go negates with
+// 2*(m+1)*p and so admits limbs up to 2*m*(2^52-1) at magnitude m; field_10x26.go negates with
+// (m+1)*p (the older convention), which is closed under the operations only for limbs up to
+// m*(2^26-1).  Raw limbs are injected within the bound of the representation under test.
 func maxLimb(i, mag int) uint64 {
-	if mag == 0 {
-		return 0
+	if limbBits == 26 {
+		return uint64(mag) * limbMax(i)
 	}
 	return 2 * uint64(mag) * limbMax(i)
 }
@@ -351,8 +356,8 @@ func genRawLimbs(t *rapid.T, label string) fInit {
 			l[i] = limbMax(i)
 		case 4:
 			l[i] = limbMax(i) + 1
-		case 5: // what Negate(m-1) makes of zero: 2*m*p_i
-			l[i] = 2 * uint64(mag) * pLimb(i)
+		case 5: // what Negate(m-1) makes of zero: 2*m*p_i (m*p_i with 26-bit limbs)
+			l[i] = maxLimb(i, mag) / limbMax(i) * pLimb(i)
 		case 6:
 			l[i] = pLimb(i)
 		default:
